@@ -106,8 +106,34 @@ func (d FmtData) Process() (string, error) {
 	return fmt.Sprintf("a=%v b=%d v=%v", nodes.TryGetOutputValue(d.A, 0), nodes.TryGetOutputValue(d.B, 0), nodes.TryGetOutputValue(d.V, vector3.Zero[float64]())), nil
 }
 
+// PrefixData has ports whose names share prefixes or differ only in case:
+// the order in which dependencies are saved and re-applied must not depend
+// on such accidents.
+type PrefixData struct {
+	Val   nodes.NodeOutput[float64]
+	Vals  []nodes.NodeOutput[float64]
+	ValsB []nodes.NodeOutput[float64]
+	VALS  nodes.NodeOutput[float64]
+	Va    []nodes.NodeOutput[float64]
+}
+
+func (d PrefixData) Process() (artifact.Artifact, error) {
+	var sb strings.Builder
+	fmt.Fprintf(&sb, "val=%v VALS=%v\n", nodes.TryGetOutputValue(d.Val, -1), nodes.TryGetOutputValue(d.VALS, -2))
+	for _, part := range []struct {
+		n string
+		a []nodes.NodeOutput[float64]
+	}{{"vals", d.Vals}, {"valsb", d.ValsB}, {"va", d.Va}} {
+		for i, v := range part.a {
+			fmt.Fprintf(&sb, "%s%d=%v\n", part.n, i, strconv.FormatFloat(v.Value(), 'g', -1, 64))
+		}
+	}
+	return textArtifact{data: sb.String()}, nil
+}
+
 func init() {
 	f := &refutil.TypeFactory{}
+	refutil.RegisterType[nodes.Struct[artifact.Artifact, PrefixData]](f)
 	refutil.RegisterType[nodes.Struct[artifact.Artifact, JoinData]](f)
 	refutil.RegisterType[nodes.Struct[string, FmtData]](f)
 	generator.RegisterTypes(f)
@@ -503,6 +529,8 @@ func (Scenario) Run(c choice.Chooser, opt sim.Options) (res sim.Result) {
 			wt = 4
 		case strings.Contains(k, "c12.JoinData"), strings.Contains(k, "c12.FmtData"):
 			wt = 12
+		case strings.Contains(k, "c12.PrefixData"):
+			wt = 8
 		case strings.Contains(k, "SumData"), strings.Contains(k, "TextNodeData"):
 			wt = 8
 		case strings.Contains(k, "math."), strings.Contains(k, "vector.NewData"):
